@@ -2293,6 +2293,57 @@ def r54_strategy_setter(ctx, sc: SimCtx):
                     'the run keeps handling failing events with the previously configured strategy', where='Simulator.set_error_strategy')
 
 
+def settings_persist(ctx, sc: SimCtx, rule='R5.7'):
+    """A field a public `set_<x>(value, ..)` method stores its argument in is a setting of the user: besides that setter only the constructor
+    writes it.  Anything else that writes it -- cleanup(), initialize(), a reset helper they call -- silently replaces what the user configured
+    (the error strategy falls back to its default for every replication after the first)."""
+    prog = ctx.prog
+    ctx.rule(rule, 'a setting stored by a public set_<x>() method of the simulator is written by that setter and the constructor only (cleanup / initialize do not reset it)')
+    n = 0
+    family = sorted({c for c in prog.mro(SIM) if c in prog.classes and any(k == 'Simulator' for k in prog.mro(c))} | set(prog.subclasses(SIM, strict=False)))
+    settings = {}           # field -> setter names
+    for c in family:
+        for mname, fn in prog.classes[c].methods.items():
+            if not mname.startswith('set_') or mname.startswith('_'):
+                continue
+            params = {a.arg for a in fn.args.args[1:] + fn.args.kwonlyargs}
+            for a in walk_shallow(fn):
+                if isinstance(a, (ast.Assign, ast.AnnAssign)) and getattr(a, 'value', None) is not None and isinstance(a.value, ast.Name) and a.value.id in params:
+                    for t in (a.targets if isinstance(a, ast.Assign) else [a.target]):
+                        if is_self_attr(t):
+                            settings.setdefault(t.attr, set()).add(mname)
+
+    def writers_of(c, mname, seen):
+        """(field, node, method) written by c.mname directly or through the self-methods it calls"""
+        r = prog.resolve(c, mname)
+        if not r or r[1] is None or (r[0].name, mname) in seen:
+            return []
+        seen.add((r[0].name, mname))
+        out = []
+        for x in walk_shallow(r[1]):
+            if isinstance(x, ast.Attribute) and isinstance(x.ctx, ast.Store) and is_self_attr(x) and x.attr in settings:
+                out.append((x.attr, x, f'{r[0].name}.{mname}'))
+            if isinstance(x, ast.Call) and isinstance(x.func, ast.Attribute) and isinstance(x.func.value, ast.Name) and x.func.value.id == 'self':
+                out += writers_of(c, x.func.attr, seen)
+        return out
+    for c in family:
+        ci = prog.classes[c]
+        for mname in sorted(ci.methods):
+            if mname in ('__init__', '__new__', '__setstate__', '__copy__', '__deepcopy__'):
+                continue
+            for (f, node, via) in writers_of(c, mname, set()):
+                if mname in settings.get(f, ()):
+                    continue
+                n += 1
+                ctx.ob(rule, f'{c}.{mname}:{f}', False)
+                ctx.finding(rule, f'{c}.{mname}:resets-{f}', ci, node,
+                            f'{c}.{mname}() writes `self.{f}`' + (f' (through {via})' if via != f'{c}.{mname}' else '') +
+                            f', the setting stored by {" / ".join(sorted(settings[f]))}(): what the user configured is replaced behind their back '
+                            f'(after cleanup() / a second initialize() the simulator handles failing events with the default strategy again)', where=f'{c}.{mname}')
+    ctx.ob(rule, 'settings', n == 0, sample=f'settings {sorted((f, sorted(v)) for f, v in settings.items())}: written only by their setters and constructors: {n == 0}')
+    ctx.floor(rule, 'settings with a public setter', len(settings), 2)
+
+
 # --------------------------------------------------------------------------- TIME_CHANGED only for executed events
 def time_changed_sites(ctx, sc: SimCtx, rule):
     """every TIME_CHANGED_EVENT notification belongs to a popped event (fired between its pop and its execution): a silent clock
